@@ -95,6 +95,8 @@ func propC08(c *Ctx) {
 
 	c.Rule("R8.4", "the cache serves only the segment fetched for exactly this (start, limit)", 3)
 	checkCacheKeyIdentity(c, "R8.4")
+	c.Rule("R8.6", "each segment cache is filled by exactly one fetch routine", 4)
+	checkCachePerRoutine(c, "R8.6")
 	c.Rule("R8.5", "a log is dropped from a shared block only when the same log index is already attached", 2)
 	checkLogsAddDedup(c, "R8.5")
 
